@@ -80,8 +80,8 @@ func (s *sessionManager) leave(key string) {
 }
 
 func (s *sessionManager) write(activeMsg *ActiveMessage) *Message {
-	replyChan := make(chan *Message)
-	defer close(replyChan)
+	// 带缓冲且不关闭: 调用方等待超时返回后 写协程稍后完成这条请求也不会阻塞或者往已关闭的通道发送
+	replyChan := make(chan *Message, 1)
 	s.operationFuncChan <- func(record map[string]*session) {
 		key := activeMsg.Key
 		if v, ok := record[key]; ok {
@@ -102,5 +102,22 @@ func (s *sessionManager) write(activeMsg *ActiveMessage) *Message {
 		replyChan <- newErrMessage(errors.Join(ErrNotExistKey,
 			fmt.Errorf("key=[%s] sum=[%d] ", key, len(record))))
 	}
-	return <-replyChan
+	if activeMsg.OverTimeDuration < 0 {
+		return <-replyChan
+	}
+	// 超时时间也要覆盖在终端队列里排队的时间: 终端不读数据时写协程卡在写上 排队的请求一直不会被写出 也就一直没有超时
+	// 正常的超时还是由连接在写出后计时 这里多等一秒只兜底没有写出去的情况
+	duration := 3 * time.Second
+	if activeMsg.OverTimeDuration > 0 {
+		duration = activeMsg.OverTimeDuration
+	}
+	timer := time.NewTimer(duration + time.Second)
+	defer timer.Stop()
+	select {
+	case msg := <-replyChan:
+		return msg
+	case <-timer.C:
+		return newErrMessage(errors.Join(ErrWriteDataOverTime,
+			fmt.Errorf("key=[%s] not written within [%.2f]second", activeMsg.Key, duration.Seconds())))
+	}
 }
